@@ -163,7 +163,7 @@ func run(sc *Scenario, st *stats) *verr {
 		q.NotificationHandler = w.appNotification
 	}
 	q = mkQuery(sc.Query, q, w)
-	refused := queryRefused(sc.Query, sc.Plain)
+	refused := queryRefused(sc.Query, sc.Plain, sc.Client == "cache")
 
 	sleepUntil := func(at time.Duration) {
 		if d := at - w.now(); d > 0 {
@@ -239,7 +239,7 @@ func run(sc *Scenario, st *stats) *verr {
 			}
 		}
 		st.deafConnect = as != nil && !as.connected && as.script.Conn == "deaf"
-		st.deafNext = nBegin == nEnd && !stopFirst && sc.attempt(nBegin).Conn == "deaf" && !queryInvalid(sc.Query) && !refused
+		st.deafNext = nBegin == nEnd && !stopFirst && sc.attempt(nBegin).Conn == "deaf" && !queryInvalid(sc.Query, sc.Client == "cache") && !refused
 		if nBegin > 0 {
 			st.reconnects = nBegin - 1
 		}
@@ -653,12 +653,12 @@ func (w *world) labels(st *stats) {
 	if sc.Query != "" {
 		st.label("query:" + sc.Query)
 		switch {
-		case queryRefused(sc.Query, sc.Plain):
+		case queryRefused(sc.Query, sc.Plain, sc.Client == "cache"):
 			st.label("subscribe-refused")
 			if sc.Stop == "close" && st.phase == "after-return" {
 				st.label("close-after-refused-subscribe")
 			}
-		case queryInvalid(sc.Query):
+		case queryInvalid(sc.Query, sc.Client == "cache"):
 			st.label("every-attempt-rejects-the-query")
 		}
 	}
